@@ -12,5 +12,5 @@ NumValsQuick    == << S(48), S(49), <<49, 48>>, BIG >>
 NumValsThorough == << S(48), S(49), <<49, 48>>, BIG >>
 Words8 == << W_snap, W_pre, W_alpha, W_beta, W_rc, S(97), S(112), W_pre \o S(97) >>
 SufNums == << <<>>, S(49), S(50) >>
-ObsEmit(op, args, ret, post) == PrintT(ToJson([op |-> op, args |-> args, r |-> ret]))
+ObsEmit(op, args, ret, post) == PrintT(ToJson([op |-> op, args |-> args, r |-> ret, lv |-> DebugLevels]))
 ================================================================================
